@@ -134,7 +134,7 @@ def _every_identifier_checked(ctx, nids: ClassInfo) -> Optional[List[str]]:
     return problems
 
 
-def _lookup_semantics(ctx, decl_fields: List[str]) -> Set[str]:
+def _lookup_semantics(ctx, decl_fields: List[str], rules: tuple = ('C14.containers', 'C14.once'), only: Optional[tuple] = None) -> Set[str]:
     """find_fqn / find_any interpreted (dznverif.scenario, E7) on a small universe: a FileContents that holds, spread over its
     declaration containers (and, as decoys, over filenames / imports), one declaration for every fully qualified name of one
     to three identifiers over {a, b} - two of them twice, in different containers - looked up with every name of one or two
@@ -225,7 +225,7 @@ def _lookup_semantics(ctx, decl_fields: List[str]) -> Set[str]:
             run.remark(f'C14: {fname} could not be interpreted on the lookup scenarios ({exc}); the shape rules decide')
             return
         decided.add(fname)
-        for rule_ in ('C14.containers', 'C14.once'):
+        for rule_ in rules:
           run.add(rule_, fn.module.name, fn.qualname, f'{fname}: {n} lookups over {len(worlds[0][2])} declarations in {len(worlds)} layouts', not bad,
                 (f'{fname} returns exactly the declarations on the scope chain, each once, never a file name or import '
                  f'(interpreted on {n} lookups)' if fname == 'find_fqn' else
@@ -248,9 +248,11 @@ def _lookup_semantics(ctx, decl_fields: List[str]) -> Set[str]:
             for sc in scopes:
                 args = [ids(nm)] + ([ids(sc)] if sc is not None else [])
                 calls.append((args, f"find_fqn('{'.'.join(nm)}', from {('.'.join(sc) or '<global>') if sc is not None else None})"))
-        judge('find_fqn', calls, chain_expect)
+        if only is None or 'find_fqn' in only:
+            judge('find_fqn', calls, chain_expect)
         calls = [([ids(nm)], f"find_any('{'.'.join(nm)}')") for nm in names + [('a', 'b', 'a')]]
-        judge('find_any', calls, suffix_expect)
+        if only is None or 'find_any' in only:
+            judge('find_any', calls, suffix_expect)
     except (Raised, Undecided):
         pass
     return decided
